@@ -123,10 +123,10 @@ def r2_construct_once(report, repo, rule='C08-R2'):
       reach = g.reach([n], avoid=lambda x: any(x is r for r, _ in regs),
                       avoid_edge=lambda a, l, b: l in ('exc', 'raise'))
       ok = not any(x is head[0] or x is g.exit for x in reach)
+      tgt = dotted(core.assigned_targets(core.enclosing_stmt(c))[0])
       ok = ok and all(
-          [dotted(a) for a in rc.args] == [var, dotted(
-              core.assigned_targets(core.enclosing_stmt(c))[0])]
-          for _, rc in regs)
+          len(rc.args) == 2 and dotted(rc.args[0]) == var and tgt in
+          lib.copy_class(f, dotted(rc.args[1]) or '?') for _, rc in regs)
     report.check(ok, rule, f.qualname, 'register-before-next', c,
                  'the new instance is registered (update_plug) before the next '
                  'constructor runs / the function returns',
@@ -451,14 +451,17 @@ def r6_injection(report, repo):
                'provided plugs are merged into the phase kwargs')
   p = repo.func(PL, 'PlugManager.provide_plugs')
   rets = [n for n in walk_no_nested(p.node) if isinstance(n, ast.Return)]
-  ok = len(rets) == 1 and isinstance(rets[0].value, ast.DictComp)
+  builds = lib.dict_builds(p)
+  ok = len(rets) == 1 and len(builds) == 1
   if ok:
-    dc = rets[0].value
-    tg = dc.generators[0].target
+    b = builds[0]
+    tg = b['target']
     ok = isinstance(tg, ast.Tuple) and len(tg.elts) == 2 and \
-        dotted(dc.key) == dotted(tg.elts[0]) and isinstance(
-            dc.value, ast.Subscript) and dotted(dc.value.value) == \
-        'self._plugs_by_type' and dotted(dc.value.slice) == dotted(tg.elts[1])
+        dotted(b['key']) == dotted(tg.elts[0]) and isinstance(
+            b['value'], ast.Subscript) and dotted(b['value'].value) == \
+        'self._plugs_by_type' and dotted(b['value'].slice) == dotted(
+            tg.elts[1]) and dotted(b['iter']) == lib.param_names(p.node)[1] \
+        and (rets[0].value is b['node'] or dotted(rets[0].value) == b['name'])
   report.check(ok, rule, p.qualname, 'name->instance', p.node,
                'provide_plugs returns {name: self._plugs_by_type[cls]}')
   up = repo.func(PL, 'PlugManager.update_plug')
